@@ -67,7 +67,7 @@ const SLACK: usize = 4096;
 
 fn alloc_bound(l: &Lim) -> usize {
     let elem = std::mem::size_of::<Variant>().max(4);
-    l.max_str.max(l.max_bytes).max(l.max_arr.saturating_mul(elem)) + SLACK
+    l.max_str.max(l.max_bytes).max(l.max_arr.saturating_mul(elem)).saturating_add(SLACK)
 }
 
 // ---- generator ---------------------------------------------------------------------------
@@ -350,6 +350,41 @@ impl Prop for C02 {
                 let (ty, b) = length_sweep(case, &lim);
                 out.push(format!("dec {} {} x{}", ty, lim.show(), hex(&b)));
             }
+            // limits at / beyond the i32 and u32 boundaries (a usize limit cast to a narrower type wraps there).
+            // Only UNMUTATED valid encodings are decoded under them: with such limits a declared length of
+            // i32::MAX is within the configured maximum and the decoder may rightly try to allocate it.
+            {
+                let huge = |rng: &mut Rng| Lim {
+                    max_str: *rng.pick(&HUGE_LIMITS),
+                    max_bytes: *rng.pick(&HUGE_LIMITS),
+                    max_arr: *rng.pick(&HUGE_LIMITS),
+                    max_depth: if rng.chance(1, 2) { *rng.pick(&HUGE_LIMITS) as u64 } else { 10 },
+                    max_msg: 0,
+                    named: 0,
+                };
+                let v = {
+                    let mut g = Gen::new(rng);
+                    g.ill_formed = false;
+                    g.val(2)
+                };
+                if let Some(bytes) = v.try_encode() {
+                    let lim = huge(rng);
+                    out.push(format!("dec {} {} x{}", v.type_name(), lim.show(), hex(&bytes)));
+                }
+                if case % 2 == 0 {
+                    let names = dispatch::SCHEMAS;
+                    let name = names[(case / 2 * 17 + 2) % names.len()].0;
+                    let (bytes, ok) = {
+                        let mut g = Gen::new(rng);
+                        g.lens = vec![0, 1, 2, 3];
+                        g.struct_bytes(name, false)
+                    };
+                    if ok && bytes.len() <= 3000 {
+                        let lim = huge(rng);
+                        out.push(format!("sdec {} {} x{}", name, lim.show(), hex(&bytes)));
+                    }
+                }
+            }
             // (iii) nesting families
             {
                 let (ty, prefix, tail) = rng.pick(&fams).clone();
@@ -402,7 +437,7 @@ impl Runner for R {
                 };
                 let (r, peak) = metered(|| run_sdec(name, &lim, &bytes));
                 // an array of structures: `Vec::with_capacity(len)` of the structure's size
-                let bound = lim.max_str.max(lim.max_bytes).max(lim.max_arr.saturating_mul(4096)).max(bytes.len() * 4) + SLACK;
+                let bound = lim.max_str.max(lim.max_bytes).max(lim.max_arr.saturating_mul(4096)).max(bytes.len() * 4).saturating_add(SLACK);
                 let v = if peak > bound {
                     Verdict::fail("alloc_bounded", name, format!("requested {} bytes > {} under {:?}", peak, bound, lim))
                 } else {
@@ -416,7 +451,7 @@ impl Runner for R {
                     _ => return ("bad-op".to_string(), Verdict::Ok),
                 };
                 let (line, peak) = metered(|| run_msg(id, &lim, &bytes));
-                let bound = lim.max_str.max(lim.max_bytes).max(lim.max_arr.saturating_mul(4096)).max(bytes.len() * 4) + SLACK;
+                let bound = lim.max_str.max(lim.max_bytes).max(lim.max_arr.saturating_mul(4096)).max(bytes.len() * 4).saturating_add(SLACK);
                 let v = if peak > bound {
                     Verdict::fail("alloc_bounded", "msg", format!("requested {} bytes > {} under {:?}", peak, bound, lim))
                 } else {
@@ -433,9 +468,9 @@ impl Runner for R {
                 // the url / reason is a string under max_string_length; read_bytes allocates the
                 // declared size, which max_message_size bounds (2^32-1 when unlimited)
                 let bound = if *ty == "ReadBytes" {
-                    (if lim.max_msg > 0 { lim.max_msg } else { u32::MAX as usize }).max(bytes.len()) * 3 + SLACK
+                    (if lim.max_msg > 0 { lim.max_msg } else { u32::MAX as usize }).max(bytes.len()).saturating_mul(3).saturating_add(SLACK)
                 } else {
-                    lim.max_str.max(bytes.len()) * 3 + SLACK
+                    lim.max_str.max(bytes.len()).saturating_mul(3).saturating_add(SLACK)
                 };
                 let v = if peak > bound {
                     Verdict::fail("alloc_bounded", ty, format!("requested {} bytes > {} under {:?}", peak, bound, lim))
@@ -454,7 +489,7 @@ impl Runner for R {
                 if *ty == "Chunk" {
                     let mut c = std::io::Cursor::new(&bytes[..]);
                     let (r, peak) = metered(|| opcua::core::comms::message_chunk::MessageChunk::decode(&mut c, &o));
-                    let bound = if lim.max_msg > 0 { lim.max_msg.max(12) } else { u32::MAX as usize } + SLACK;
+                    let bound = (if lim.max_msg > 0 { lim.max_msg.max(12) } else { u32::MAX as usize }).saturating_add(SLACK);
                     let v = if peak > bound {
                         Verdict::fail("alloc_bounded", class, format!("requested {} > {}", peak, bound))
                     } else {
